@@ -124,6 +124,30 @@ fn exercise(style: ProgressStyle, nticks: u64, hist: &[String], stats: &mut Stat
             }
         }
     }
+    // bars that start with an elapsed time (restored from an earlier run): a value the builder refuses
+    // (with a panic of its own) is fine, a value it accepts must not make a later draw panic
+    for d in [std::time::Duration::ZERO, std::time::Duration::from_secs(1_000_000_000), std::time::Duration::from_secs(u64::MAX / 2), std::time::Duration::MAX - std::time::Duration::from_secs(1), std::time::Duration::MAX] {
+        let catcher = LineCatcher::new(80);
+        let step = format!("bar built with_elapsed({:?}), drawn in progress and finished", d);
+        let st = style.clone();
+        let Ok(pb) = catch(|| bar_on(&catcher, Some(5), st).with_position(3).with_message("msg").with_elapsed(d)) else {
+            continue;
+        };
+        let r = catch(|| {
+            pb.tick();
+            crate::clock::advance_ms(2500);
+            pb.inc(1);
+            let mut out = frame_lines(&catcher, &pb);
+            pb.finish();
+            out.extend(frame_lines(&catcher, &pb));
+            out
+        });
+        if let Err(p) = r {
+            let _ = catch(move || drop(pb));
+            return Err(mk(format!("accepted style panics in draw: {}", panic_class(&p)), step, p));
+        }
+        stats.bump("draws", 2);
+    }
     // the terminal changes its mind about its width in the middle of a draw: the k-th width query and
     // all later ones get another answer
     for (w1, w2) in [(80u16, 10u16), (10, 80), (40, 0), (3, 1)] {
